@@ -42,7 +42,7 @@
   (def wrote (c16/raw-write pfd data))
   (c16/close-fd pfd)
   (var t2 0)
-  (while (and (= outcome :pending) (< t2 400)) (ev/sleep (if (< t2 100) 0 0.01)) (++ t2))
+  (while (and (= outcome :pending) (< t2 1000)) (ev/sleep (if (< t2 100) 0 0.01)) (++ t2))
   (print "hangup " kind " " mode " n=" n " extra=" extra " unread=" (if unread 1 0) " susp=" susp " wrote=" wrote " got=" (length buf)
          " match=" (= (string buf) data) " outcome=" outcome " turns=" t2)
   (try (ev/close conn) ([e] nil))
